@@ -60,7 +60,7 @@ def run(chk, scratch):
     chk.rule = ("worlds with 2-12 group names (chosen so that set iteration order differs from sorted order), ~6% ungroupable reads (missing tag / "
                 "delimiter / table row), a group absent from one chromosome; modes tag, read_id, file, file_name x counts formats x PYTHONHASHSEED x "
                 "threads; every (feature, group) cell compared with the documented weights restricted to the group; matrix vs linear triples; "
-                "group sums vs ungrouped tables. non-trivial = distinct (mode, format, #groups, hash seed) with >= 3 groups")
+                "group sums vs ungrouped tables (gene, transcript, and with --count_exons exon and intron tables). non-trivial = distinct (mode, format, #groups, hash seed) with >= 3 groups")
     jobs = []
     modes = ["tag", "read_id", "file", "file_name"]
     if thorough:
@@ -84,7 +84,7 @@ def run(chk, scratch):
         os.makedirs(d)
         w.write_fasta(os.path.join(d, "g.fa"))
         w.write_gtf(os.path.join(d, "a.gtf"))
-        extra = ["--counts_format", fmt, "--gene_quantification", "with_ambiguous", "--transcript_quantification", "with_ambiguous"]
+        extra = ["--counts_format", fmt, "--gene_quantification", "with_ambiguous", "--transcript_quantification", "with_ambiguous", "--count_exons"]
         bams = None
         if mode == "file_name":
             nf = min(ng, 3)
@@ -203,6 +203,33 @@ def run(chk, scratch):
                                 exp = row[j] * 1e6 / tot
                                 if abs(tpm[feat][j] - exp) > 1e-3 + 1e-9 * exp:
                                     chk.violation("grouped-tpm-value", "%s: %s/%s TPM %.6f expected %.6f" % (desc, feat, g, tpm[feat][j], exp), wit)
+        # exon / intron tables: per-group rows partition the ungrouped rows; a group is only reported on chromosomes where it has reads
+        groups_on_chr = defaultdict(set)
+        for rc_ in recs:
+            groups_on_chr[rc_["chr"]].add(truth.get(rc_["read"], "NA"))
+        for kind in ("exon", "intron"):
+            gp, up = o.path("%s_grouped_counts.tsv" % kind), o.path("%s_counts.tsv" % kind)
+            if not (parse.exists(gp) and parse.exists(up)):
+                chk.violation("feature-table-missing:" + kind, "%s: %s tables missing although --count_exons is set" % (desc, kind), wit)
+                continue
+            un = defaultdict(lambda: [0, 0])
+            for row in parse.read_feature_counts(up):
+                un[(row["chr"], row["start"], row["end"], row["strand"])][0] += row["inc"]
+                un[(row["chr"], row["start"], row["end"], row["strand"])][1] += row["exc"]
+            gs = defaultdict(lambda: [0, 0])
+            for row in parse.read_feature_counts(gp):
+                k = (row["chr"], row["start"], row["end"], row["strand"])
+                gs[k][0] += row["inc"]
+                gs[k][1] += row["exc"]
+                cells += 1
+                chk.note()
+                if row["group"] not in groups_on_chr[row["chr"]] and (row["inc"] or row["exc"]):
+                    chk.violation("feature-row-of-a-group-without-reads-there:" + kind, "%s: %s %s:%d-%d has a row for group %s (%d/%d), which has no read on %s" %
+                                  (desc, kind, row["chr"], row["start"], row["end"], row["group"], row["inc"], row["exc"], row["chr"]), wit)
+            for k in set(un) | set(gs):
+                if un.get(k, [0, 0]) != gs.get(k, [0, 0]):
+                    chk.violation("feature-group-sum-differs:" + kind, "%s: %s %s ungrouped include/exclude %s, groups sum to %s" %
+                                  (desc, kind, k, un.get(k), gs.get(k)), wit)
         if ng >= 3:
             chk.nontrivial.add((mode, fmt, ng, hs))
         chk.sample({"run": desc, "groups_expected": expected_groups[:12], "reads_without_group": sum(1 for g in truth.values() if g == "NA")}, limit=4)
